@@ -59,12 +59,13 @@ Definition intent_ok (c : tcase) : bool :=
   | Some its => same_tokens (canon its) (c_dense c)
   end.
 
-(** (4) the push list satisfies the hypothesis of theorem [no_fusion_stream] under the current
-    table (so the theorem applies to this very list) *)
+(** (4) the push list satisfies the hypotheses of the theorems: [stream_ok] under the current
+    table ([no_fusion_stream]) and [adjacency_ok], the table-independent adjacency universe
+    ([no_fusion]); so the theorems apply to this very list *)
 Definition hyp_ok (c : tcase) : bool :=
   match c_items c with
   | None => true
-  | Some its => stream_ok T its
+  | Some its => stream_ok T its && adjacency_ok its
   end.
 
 Definition check_case (c : tcase) : bool :=
